@@ -119,7 +119,7 @@ def build(timeout=1500):
         try:
             sys.path.insert(0, os.path.join(VERIF, "harness"))
             import py2coq
-            tstat = py2coq.regenerate(SRC, os.path.join(COQ, "gen"))
+            tstat = py2coq.regenerate(SRC, gen_dir())
         except ImportError:
             tstat = {"status": "translator not built yet"}
         log = []
@@ -146,19 +146,52 @@ def build(timeout=1500):
         return True, "\n".join(log), tstat
 
 
+def gen_dir():
+    """coq/gen for /repo itself; a private directory for runs against another tree (seeded changes, parent commits), so
+    that such runs never disturb the regenerated files of the registered checks."""
+    if os.path.realpath(REPO) == "/repo":
+        return os.path.join(COQ, "gen")
+    return os.path.join(BUILD, "gen_" + hashlib.sha1(os.path.realpath(REPO).encode()).hexdigest()[:10])
+
+
 def translator_tie(chk, tie_files, gen_files):
-    """Second tie: compile the regenerated gen/Gen_*.v and the static gen/Tie_*.v (gen = hand model for all arguments).
+    """Second tie: compile the regenerated Gen_*.v and the static Tie_*.v (gen = hand model for all arguments).
     Not part of `make`: a source change the translator does not understand must not break the build - the tie is then
     reported as unavailable and the correspondence run alone carries the property."""
+    import py2coq
     st = {k: v for k, v in (chk.translator or {}).items()}
-    res = {"status": "ok", "files": list(tie_files), "untranslatable": {k: v for k, v in st.items() if v != "ok"}}
+    wanted = {os.path.basename(g) for g in gen_files}
+    relevant = {fn.coq_name for fn in py2coq.TARGETS if (fn.file or py2coq.FILES[fn.cls]) in wanted}
+    res = {"status": "ok", "files": list(tie_files),
+           "untranslatable": {k: v for k, v in st.items() if v != "ok" and k in relevant}}
+    gd = gen_dir()
+    private = gd != os.path.join(COQ, "gen")
     with Lock("gen.lock"):
         for rel in list(gen_files) + list(tie_files):
-            vo = os.path.join(COQ, rel + "o")
-            src = os.path.join(COQ, rel)
-            if os.path.exists(vo) and os.path.getmtime(vo) >= os.path.getmtime(src) and rel in gen_files:
-                continue
-            rc, out = sh("timeout 300 coqc -Q . CM %s" % rel, cwd=COQ, timeout=330)
+            base = os.path.basename(rel)
+            if private:
+                # Gen_*.v were regenerated into the private directory by build(); Tie_*.v are copied there with their
+                # import of CM.gen.Gen_x redirected to the private logical root CMGEN
+                src = os.path.join(gd, base)
+                if rel in tie_files:
+                    txt = open(os.path.join(COQ, rel)).read()
+                    gens = re.findall(r"\bgen\.(Gen_[A-Za-z0-9_]+)", txt)
+                    txt = re.sub(r"\s*\bgen\.Gen_[A-Za-z0-9_]+", "", txt)
+                    txt = txt.replace("(* Tie", "(* [private copy] Tie", 1)
+                    first = txt.index("From CM Require Import")
+                    eol = txt.index(".\n", first) + 2
+                    txt = txt[:eol] + "".join("From CMGEN Require Import %s.\n" % g for g in gens) + txt[eol:]
+                    open(src, "w").write(txt)
+                cmd = "timeout 300 coqc -Q %s CM -Q %s CMGEN %s" % (COQ, gd, base)
+                cwd = gd
+            else:
+                src = os.path.join(COQ, rel)
+                vo = src + "o"
+                if os.path.exists(vo) and os.path.getmtime(vo) >= os.path.getmtime(src) and rel in gen_files:
+                    continue
+                cmd = "timeout 300 coqc -Q . CM %s" % rel
+                cwd = COQ
+            rc, out = sh(cmd, cwd=cwd, timeout=330)
             if rc != 0:
                 res["status"] = "unavailable"
                 res["failed_file"] = rel
